@@ -381,7 +381,12 @@ def reg_fields(reg):
     from unyt._unit_lookup_table import default_unit_symbol_lut as dflt
 
     extra, non = [], []
+    marked = getattr(reg, "_derived_symbols", None) or ()
     for k, v in reg.lut.items():
+        if k in marked:
+            # a written-back prefixed entry the registry itself knows to be derived: a cache of what the
+            # other rows imply (forgotten on every edit, not persisted), not part of the contents
+            continue
         dv = dflt.get(k)
         if dv is None or not L.same_entry(dv, v):
             extra.append(entry_wire(k, v))
@@ -843,22 +848,26 @@ def compare_follow(chk, rep, m):
 
 
 WITNESSES = [
-    # (theorem, key, setup, route, op source or None)
-    ("identity_loss_shows_asIs", "pickleArray", "reg = default_unit_registry\nq = unyt_quantity(90.0, cold_unit('degree', reg))\n", "np.sin(x)"),
-    ("identity_loss_shows_asIs", "deepcopyArray", "reg = default_unit_registry\nq = unyt_quantity(300.0, cold_unit('K', reg))\n",
-     "x + unyt_quantity(1.0, 'degC', registry=R)"),
-    ("identity_loss_shows_asIs", "pickleUnit", "reg = default_unit_registry\nq = unyt_quantity(3.0, cold_unit('dB', reg))\n", "x.units * Unit('m', registry=R)"),
-    ("C11_counterexample", "pickleArray", "reg = UnitRegistry()\nreg.add('vfoo', 3.0, D.length)\nq = unyt_quantity(2.0, cold_unit('vfoo', reg))\nreg.modify('vfoo', 5.0)\n", None),
-    ("other_defects_show", "deepcopyArray", "reg = UnitRegistry()\nreg.modify('g', 2.0)\nq = unyt_quantity(2.0, cold_unit('g', reg))\n", "x.to('kg')"),
-    ("other_defects_show", "pickleArray", "reg = UnitRegistry()\nreg.remove('lb')\nq = unyt_quantity(2.0, cold_unit('km', reg))\n", None),
-    ("other_defects_show", "pickleArray", "reg = UnitRegistry(unit_system='cgs')\nq = unyt_quantity(2.0, cold_unit('km', reg))\n", "x.in_base()"),
-    ("other_defects_show", "pickleArray", "reg = UnitRegistry()\nreg.add('vfoo', 3.0, D.length)\nq = unyt_quantity(2.0, cold_unit('vfoo', reg))\nreg.modify('vfoo', 5.0)\n", None),
-    ("other_defects_show", "saveLoadTxt", "reg = UnitRegistry()\nreg.add('vfoo', 3.0, D.length)\nq = unyt_array(np.array([2.0]), cold_unit('vfoo', reg))\n", None),
+    # (theorem, route, setup, op source or None, the theorem says the round trip FAILS here)
+    ("identity_kept_on_every_route", "pickleArray", "reg = default_unit_registry\nq = unyt_quantity(90.0, cold_unit('degree', reg))\n", "np.sin(x)", False),
+    ("identity_kept_on_every_route", "deepcopyArray", "reg = default_unit_registry\nq = unyt_quantity(300.0, cold_unit('K', reg))\n",
+     "x + unyt_quantity(1.0, 'degC', registry=R)", False),
+    ("identity_kept_on_every_route", "pickleUnit", "reg = default_unit_registry\nq = unyt_quantity(3.0, cold_unit('dB', reg))\n", "x.units * Unit('m', registry=R)", False),
+    ("identity_kept_on_every_route", "unitCopy", "reg = UnitRegistry()\nq = unyt_quantity(90.0, cold_unit('degree', reg))\n", "np.sin(x)", False),
+    ("guards_inhabited", "deepcopyArray", "reg = UnitRegistry()\nreg.modify('g', 2.0)\nq = unyt_quantity(2.0, cold_unit('g', reg))\n", "x.to('kg')", False),
+    ("guards_inhabited", "deepcopyArray", "reg = UnitRegistry()\nreg.remove('lb')\nq = unyt_quantity(2.0, cold_unit('km', reg))\n", None, False),
+    ("guards_inhabited", "deepcopyUnit", "reg = UnitRegistry(unit_system='cgs')\nq = unyt_quantity(2.0, cold_unit('km', reg))\n", "x.in_base()", False),
+    ("guards_reject_witnesses", "pickleArray", "reg = default_unit_registry\nq = unyt_quantity(2.0, cold_unit('delta_degC', reg))\n", None, False),
+    ("C11_counterexample", "pickleArray", "reg = UnitRegistry()\nreg.add('vfoo', 3.0, D.length)\nq = unyt_quantity(2.0, cold_unit('vfoo', reg))\nreg.modify('vfoo', 5.0)\n", None, True),
+    ("other_defects_show", "pickleArray", "reg = UnitRegistry()\nreg.remove('lb')\nq = unyt_quantity(2.0, cold_unit('km', reg))\n", None, True),
+    ("other_defects_show", "registryJson", "reg = UnitRegistry(unit_system='cgs')\nq = unyt_quantity(2.0, cold_unit('km', reg))\n", "x.in_base()", True),
+    ("other_defects_show", "unitOfStr", "reg = UnitRegistry()\nreg.add('vfoo', 3.0, D.length)\nq = unyt_quantity(2.0, cold_unit('vfoo', reg))\nreg.modify('vfoo', 5.0)\n", None, True),
+    ("other_defects_show", "saveLoadTxt", "reg = UnitRegistry()\nreg.add('vfoo', 3.0, D.length)\nq = unyt_array(np.array([2.0]), cold_unit('vfoo', reg))\n", None, True),
 ]
 
 
-def replay_witnesses(chk, repaired_identity):
-    for thm, route, setup, opsrc in WITNESSES:
+def replay_witnesses(chk):
+    for thm, route, setup, opsrc, expect_fail in WITNESSES:
         ns = fresh_ns()
         exec(setup, ns)  # noqa: S102
         q = ns["q"]
@@ -881,7 +890,6 @@ def replay_witnesses(chk, repaired_identity):
                 orr = L.outcome(lambda: eval(opsrc, dict(env, x=r, R=r.units.registry)))  # noqa: S307
                 fails = not L.same_outcome(oq, orr)
                 what = f"{opsrc}: {short(oq)} vs {short(orr)}"
-        expect_fail = not (thm == "identity_loss_shows_asIs" and repaired_identity)
         if fails != expect_fail:
             chk.disagree("witness", f"{thm} ({route}): the theorem's witness {'does not fail' if expect_fail else 'fails'} on the real code — {what}")
 
@@ -894,12 +902,6 @@ def run(tier, seed):
     chk.proof = core.prove("C11", PROOF_MODULES, extra_targets=("drv_c11",), tier=tier)
     rng = chk.rng
     t0 = time.time()
-    try:
-        ex = core.json.load(open(os.path.join(core.BUILD, "extract_c11_routes.json"), encoding="utf-8"))
-        loses = [r for r in L.ROUTES if not ex["flags"][r]["unitSame"] and ex["flags"][r]["unitDataCarried"] and not ex["flags"][r]["unitCanonOnCanon"]]
-        repaired_identity = not loses and ex["flags"]["pickleArray"]["dfltRowCanonOnCanon"]
-    except Exception:  # noqa: BLE001
-        repaired_identity = False
     # --- direct oracle: started first, in 3 worker processes, collected after the correspondence ---
     jobs = plan(tier, rng)
     nproc = 3
@@ -915,7 +917,7 @@ def run(tier, seed):
 
             chk.disagree("harness", traceback.format_exc()[-1500:] or repr(e))
     chk.extra["correspondence_wall_s"] = round(time.time() - t0, 1)
-    replay_witnesses(chk, repaired_identity)
+    replay_witnesses(chk)
     recs = []
     for part in pending.get():
         recs.extend(part)
